@@ -37,7 +37,7 @@ func C18(c *Ctx) {
 		"a sequential baseline records the result of every (package, input, options) case; then G goroutines (several G x GOMAXPROCS configurations) hammer the same packages with different cases while code blocks yield / sleep a few microseconds (the natural suspension points between the runtime's clone/restore sections) and the GC is forced periodically to cycle the state pool; " +
 		"oracle: every concurrent result (value, errors, full block trace with state snapshots, final state) equals its solo result, and the race detector log (halt_on_error=0) contains no report besides the deliberate canary race, which must be present. " +
 		"distinct_nontrivial = distinct cases executed concurrently; evidence lists measured overlap, state-map identities seen by >=2 goroutines, (package, option) pairs in flight together")
-	c.Assume("schedules are sampled: absence of a report is not absence of a race; Debug(true) is excluded (it writes to the process-wide os.Stdout by design)")
+	c.Assume("schedules are sampled: absence of a report is not absence of a race; Debug(true) runs with the process-wide os.Stdout pointed at the null device (the trace itself is not compared)")
 	rng := rand.New(rand.NewSource(c.Seed*211 + 18))
 	var gs []*gast.Grammar
 	var lr []bool
@@ -144,6 +144,7 @@ func C18(c *Ctx) {
 				if !u.HasFlag("-optimize-parser") {
 					cs.Memo = o == 1
 					cs.Stats = o == 2
+					cs.DebugQuiet = ii%7 == 3 && len(in) < 40 // Debug(true): the trace goes to the (nulled) process-wide stdout
 				}
 				cs.AllowInvalid = o == 3
 				cs.NoRecover = o == 4
